@@ -159,6 +159,13 @@ namespace occa {
           smnt = smnt->up;
         }
 
+        if (!innerMostOuterLoop) {
+          declSmnt.printError("Must define [@exclusive] variables between"
+                              " [@outer] and [@inner] loops");
+          success = false;
+          return;
+        }
+
         // Check if index variable exists and is valid
         if (innerMostOuterLoop->hasDirectlyInScope(exclusiveIndexName)) {
           keyword_t &keyword = innerMostOuterLoop->getScopeKeyword(exclusiveIndexName);
